@@ -606,9 +606,9 @@ impl BufferedDatabaseWriter {
                         }
                     }
                 }
+                let _s = send_ready.blocking_send(true);
                 #[cfg(discret_verif)]
                 crate::verif::inflight(-verif_batch_len);
-                let _s = send_ready.blocking_send(true);
             }
         });
 
